@@ -333,7 +333,12 @@ func (s *Standalone) Logout(w http.ResponseWriter, r *http.Request) {
 
 	var idToken string
 
-	sess, _ := s.SessionManager.Get(r)
+	sess, err := s.SessionManager.Get(r)
+	if err != nil && !errors.Is(err, session.ErrNotFound) && !errors.Is(err, session.ErrInvalid) {
+		// the session could not be looked up (e.g. the store is unavailable): do not report a successful logout
+		s.InternalError(w, r, fmt.Errorf("logout: getting session: %w", err))
+		return
+	}
 	if sess != nil {
 		idToken = sess.IDToken()
 		logger = logger.WithField("sid", sess.ExternalSessionID())
@@ -371,7 +376,12 @@ func (s *Standalone) Logout(w http.ResponseWriter, r *http.Request) {
 func (s *Standalone) LogoutLocal(w http.ResponseWriter, r *http.Request) {
 	logger := mw.LogEntryFrom(r)
 
-	sess, _ := s.SessionManager.Get(r)
+	sess, err := s.SessionManager.Get(r)
+	if err != nil && !errors.Is(err, session.ErrNotFound) && !errors.Is(err, session.ErrInvalid) {
+		// the session could not be looked up (e.g. the store is unavailable): do not report a successful logout
+		s.InternalError(w, r, fmt.Errorf("logout/local: getting session: %w", err))
+		return
+	}
 	if sess != nil {
 		logger = logger.WithField("sid", sess.ExternalSessionID())
 
